@@ -152,6 +152,9 @@ IMMUTABLE_ATTRS = {'shape', 'dtype', 'size', 'ndim', 'name', '__name__', '__clas
 
 COPULAS_DECORATORS = {'copulas.utils.store_args', 'copulas.utils.random_state', 'copulas.utils.check_valid_values',
                       'copulas.utils.vectorize', 'copulas.utils.scalarize'}
+# decorators outside copulas that do not change which objects the function reads or writes
+# (memoisation returns the SAME result object again: results of memoised functions are scalars here)
+TRANSPARENT_DECORATORS = {'contextlib.contextmanager', 'abc.abstractmethod', 'functools.lru_cache', 'functools.cache'}
 NOTHING = 0      # variable 0: bound to nothing, never assigned, never written
 
 
@@ -272,6 +275,14 @@ class Analysis:
     def __init__(self, repo):
         self.repo = repo
         self.mods = {}
+        self.ext_callable_attrs = set()
+        self.attr_refs = {}      # attribute name -> callables / classes stored under it (in it, for containers)
+        self.attr_opaque = set() # attribute names under which an unknown value was stored
+        self.reset()
+        self.load()
+
+    def reset(self):
+        """forget the IR of the previous round (the knowledge about attributes is kept: it only grows)"""
         self.varnames = ['<nothing>']
         self.fns = {}            # key -> IRFn
         self.order = []
@@ -282,8 +293,19 @@ class Analysis:
         self.attr_vars = {}      # attribute name -> var id
         self.content = {}        # var id -> content var id
         self.is_content = set()
+        self.attr_uses = set()
+        self.attr_refs_changed = False
         self.owner = {}          # var id -> IRFn that owns it (locals are renamed when a function is cloned)
-        self.load()
+        self.unknown_external = set()
+        # closures carry variable ids of the previous round: an attribute that held one becomes opaque
+        for attr, refs in self.attr_refs.items():
+            keep = [r for r in refs if not (r[0] == 'func' and (r[1].nested_depth or r[1].closure))]
+            if len(keep) != len(refs):
+                self.attr_opaque.add(attr)
+            self.attr_refs[attr] = keep
+
+    def attr_state(self):
+        return (sorted((a, len(r)) for a, r in self.attr_refs.items()), sorted(self.attr_opaque))
 
     # ------------------------------------------------------------------ loading
     def load(self):
@@ -327,6 +349,18 @@ class Analysis:
             if c.is_enum():
                 continue
             self.stored_attrs.update(c.attrs)
+            for an_, ex in c.attrs.items():
+                r = self.resolve_static(c.mod, ex)
+                if r is not None and r[0] == 'ext':
+                    self.ext_callable_attrs.add(an_)
+                    self.attr_refs.setdefault(an_, []).append(('ext', r[1]))
+                elif r is not None and r[0] == 'class':
+                    self.attr_refs.setdefault(an_, []).append(('class', r[1]))
+                elif r is not None and r[0] == 'func':
+                    self.attr_refs.setdefault(an_, []).append(('func', self.spec_function(r[1], r[2])))
+                elif not (isinstance(ex, ast.Constant) or
+                          (isinstance(ex, (ast.List, ast.Tuple, ast.Dict, ast.Set)) and not ast.unparse(ex).strip('[](){}'))):
+                    self.attr_opaque.add(an_)
             for name in c.methods:
                 self.method_names.setdefault(name, []).append(c)
 
@@ -436,7 +470,7 @@ class Analysis:
                 pass
             elif r and r[0] == 'func' and f'{r[1].name}.{r[2].name}' in COPULAS_DECORATORS:
                 wrappers.append((r[1], r[2]))
-            elif r and r[0] == 'ext' and r[1] in ('contextlib.contextmanager', 'abc.abstractmethod'):
+            elif r and r[0] == 'ext' and r[1] in TRANSPARENT_DECORATORS:
                 pass
             else:
                 raise U(f'{mod.rel}:{node.lineno}', f'decorator {name}')
@@ -547,7 +581,7 @@ class Analysis:
         return changed or bool(self.queue)
 
 
-INLINE_LIMIT = 150      # statements (deep) of a callee that is cloned per call site
+INLINE_LIMIT = 60       # statements (deep) of a callee that is cloned per call site
 
 
 def inline_small(an, keep):
@@ -724,7 +758,14 @@ def union(vals, immut=False):
 
 def container_of(vals):
     """a NEW container holding the values"""
-    return Val((), [s for v in vals for s in v.reach()])
+    out = Val((), [s for v in vals for s in v.reach()])
+    refs = [v.ref for v in vals if v.ref is not None and v.ref[0] in ('func', 'methods', 'methods+attr')]
+    if refs:
+        specs = []
+        for r in refs:
+            specs += [r[1]] if r[0] == 'func' else list(r[1])
+        out.ref = ('methods', specs)
+    return out
 
 
 SELF = object()
@@ -767,6 +808,7 @@ class FnTx:
 
     def flow(self, x, v):
         """x := v  (both levels)"""
+        self.escape_val(v)
         for s in v.srcs:
             if s != x:
                 self.emit('alias', x, s)
@@ -777,6 +819,7 @@ class FnTx:
 
     def store_into(self, base, v):
         """`base[...] = v`, `base.attr = v`, `base.append(v)`: base is modified and now holds v"""
+        self.escape_val(v)
         for b in base.srcs:
             self.emit('write', b)
             cb = self.C(b)
@@ -975,11 +1018,16 @@ class FnTx:
             base = self.eval(t.value)
             av = self.an.attr_var(t.attr)
             self.an.stored_attrs.add(t.attr)
+            if v.ref is not None and v.ref[0] in ('ext', 'builtin'):
+                self.an.ext_callable_attrs.add(t.attr)
+            self.record_attr(t.attr, v)
             self.flow(av, v)
             self.store_into(base, v)         # attribute store into a tracked object is a write to it
         elif isinstance(t, ast.Subscript):
             base = self.eval(t.value)
             self.eval(t.slice)
+            if self.root_attr(t.value) is not None:
+                self.record_attr(self.root_attr(t.value), v)
             self.store_into(base, v)
         elif isinstance(t, ast.Starred):
             self.assign_target(t.value, v, node)
@@ -1298,14 +1346,63 @@ class FnTx:
         self.fail(node, f'cannot resolve {r[0]}')
 
     def eval(self, e):
-        """abstract value; a function / bound method that is used as a value escapes"""
-        v = self._eval(e)
+        return self._eval(e)
+
+    def record_attr(self, attr, v):
+        """what is stored under / inside attribute `attr` (for calls through the attribute)"""
+        refs = []
+        if v.ref is not None and v.ref[0] in ('func', 'class', 'ext'):
+            refs = [v.ref]
+        elif v.ref is not None and v.ref[0] in ('methods', 'methods+attr'):
+            refs = [('func', sp) for sp in v.ref[1]]
+        if refs:
+            lst = self.an.attr_refs.setdefault(attr, [])
+            for r in refs:
+                if not any(r[0] == q[0] and (r[1] is q[1] or (r[0] == 'func' and r[1].key == q[1].key) or r[1] == q[1])
+                           for q in lst):
+                    lst.append(r)
+                    self.an.attr_refs_changed = True
+        elif v.srcs or v.csrcs:
+            if attr not in self.an.attr_opaque:
+                self.an.attr_opaque.add(attr)
+                self.an.attr_refs_changed = True
+
+    def call_refs(self, refs, args, call):
+        """call of a value known to be one of `refs`"""
+        results = []
+        funcs = [r[1] for r in refs if r[0] == 'func']
+        if funcs:
+            self.mark_escaping(args)
+            ok = [sp for sp in funcs if compatible(self.an.fn_for(sp), len(args[0]), list(args[1]),
+                                                   args[2] is not None, args[3] is not None)]
+            if ok:
+                results.append(self.call_specs(ok, args, call))
+        for r in refs:
+            if r[0] == 'class':
+                results.append(self.construct(r[1], args, call))
+            elif r[0] == 'ext':
+                results.append(self.external(r[1], args, call))
+        out = union(results)
+        insts = {r.inst for r in results}
+        if len(results) >= 1 and len(insts) == 1:
+            out.inst = results[0].inst
+        return out
+
+    @staticmethod
+    def root_attr(e):
+        while isinstance(e, ast.Subscript):
+            e = e.value
+        return e.attr if isinstance(e, ast.Attribute) else None
+
+    def escape_val(self, v):
+        """a function / bound method that is STORED (variable, attribute, container, return value) or handed
+        to `copulas` code may later be the target of any call whose callee is unknown.  Callables handed
+        directly to external solvers (`brentq(f, …)`, `sorted(key=…)`) are called back by `callbacks`."""
         if v.ref is not None and v.ref[0] == 'func':
             self.escape(v.ref[1])
         elif v.ref is not None and v.ref[0] in ('methods', 'methods+attr'):
             for spec in v.ref[1]:
                 self.escape(spec)
-        return v
 
     def _eval(self, e):
         if isinstance(e, ast.Constant):
@@ -1329,8 +1426,12 @@ class FnTx:
             return Val((), immut=True)
         if isinstance(e, (ast.BinOp,)):
             l, r = self.eval(e.left), self.eval(e.right)
-            if isinstance(e.op, ast.Add) or isinstance(e.op, ast.Mult):
-                # list concatenation / repetition: a NEW container with the same elements
+            if isinstance(e.op, (ast.Add, ast.Mult)) and any(
+                    isinstance(x, (ast.List, ast.Tuple)) or
+                    (isinstance(x, ast.Call) and isinstance(x.func, ast.Name) and x.func.id in BUILTIN_SHALLOW)
+                    for x in (e.left, e.right)):
+                # list concatenation / repetition (an operand is a display or `list(..)`): a NEW container
+                # with the same elements.  `a + b` between other operands is read as arithmetic.
                 return Val((), l.csrcs + r.csrcs, immut=l.immut and r.immut)
             return Val((), immut=l.immut and r.immut)
         if isinstance(e, ast.UnaryOp):
@@ -1447,6 +1548,12 @@ class FnTx:
                 return Val((), immut=True)
         if base.ref is not None and base.ref[0] in ('ext', 'mod', 'builtin'):
             return Val((), immut=True)
+        refs = self.an.attr_refs.get(attr, [])
+        if refs and attr not in self.an.attr_opaque and attr not in self.an.method_names \
+                and all(r[0] == 'ext' for r in refs):
+            self.an.attr_uses.add(attr)
+            return Val((), immut=True, ref=('ext', 'scipy.stats._dist_' if all(
+                r[1].startswith('scipy.stats.') for r in refs) else refs[0][1]))
         srcs, csrcs = [], []
         known = False
         cands = []
@@ -1570,7 +1677,7 @@ class FnTx:
             vs += [a, ca]
         self.emit('call', callee.idx, vs, [ret, self.C(ret)])
 
-    def unresolved_call(self, args, node, extra=()):
+    def unresolved_call(self, args, node, extra=(), user_callable=True):
         """callee unknown: a callable supplied by the caller, a stored bound method, or a class held in
         a variable.  May run any escaped callable or any constructor; assumed not to write its
         arguments itself; its result may alias its arguments."""
@@ -1582,8 +1689,9 @@ class FnTx:
                 'dstar': self.as_var(union([v.element() for _, v in dstar]), '%arg') if dstar is not None else None,
                 'ret': ret, 'done': set()}
         self.an.unresolved.append(site)
-        out = union(self.all_args(args) + list(extra))
-        self.flow(ret, out)
+        if user_callable:
+            # a callable supplied by the caller: assumed pure, but its result may be (or hold) an argument
+            self.flow(ret, union(self.all_args(args) + list(extra)))
         return self.of_var(ret)
 
     def callbacks(self, args, node):
@@ -1598,16 +1706,14 @@ class FnTx:
                 targets = v.ref[1]
             for spec in targets:
                 callee = self.an.fn_for(spec)
-                self.escape(spec)
                 ret = self.var('%cb')
                 a, ca = self.as_var(data, '%arg')
                 self.emit('call', callee.idx, [x for _ in callee.params for x in (a, ca)], [ret, self.C(ret)])
 
     def mark_escaping(self, args):
-        for v in self.all_args(args):
-            if v.ref is not None and v.ref[0] in ('methods', 'methods+attr'):
-                for spec in v.ref[1]:
-                    self.escape(spec)
+        pos, kw, star, dstar = args
+        for v in list(pos) + list(kw.values()):
+            self.escape_val(v)
 
     def external(self, dotted, args, node):
         pos, kw, star, dstar = args
@@ -1635,6 +1741,7 @@ class FnTx:
                 self.write(pos[0])
             return Val(())
         # unknown external function: may write every argument, result may alias them
+        self.mark_escaping(args)
         self.write(allv)
         self.an.unknown_external.add(dotted)
         return Val(allv.srcs, allv.csrcs)
@@ -1708,8 +1815,15 @@ class FnTx:
                 return self.external(fv.ref[1], args, call)
             if kind == 'builtin':
                 return self.builtin(fv.ref[1], args, call)
+        ra = self.root_attr(f)
+        if ra is not None and ra in self.an.stored_attrs:
+            refs = self.an.attr_refs.get(ra, [])
+            self.an.attr_uses.add(ra)
+            if refs and ra not in self.an.attr_opaque:
+                return self.call_refs(refs, args, call)
         self.mark_escaping(args)
-        return self.unresolved_call(args, call, extra=[fv.element()])
+        # a parameter / local holding a callable: the caller's callback (`f` of the root finders)
+        return self.unresolved_call(args, call, extra=[fv.element()], user_callable=True)
 
     def builtin(self, name, args, node):
         pos, kw, star, dstar = args
@@ -1753,7 +1867,6 @@ class FnTx:
             r = self.an.resolve_static(self.mod, f, self.imports())
             if r is not None:
                 if r[0] == 'ext':
-                    self.mark_escaping(args)
                     return self.external(r[1], args, call)
                 if r[0] == 'func':
                     self.mark_escaping(args)
@@ -1763,7 +1876,7 @@ class FnTx:
         recv = self._eval(f.value)
         if m == '__class__':
             self.mark_escaping(args)
-            return self.unresolved_call(args, call)
+            return self.unresolved_call(args, call, user_callable=False)
         # ---- ClassName.method(...)
         if recv.ref is not None and recv.ref[0] == 'class':
             cls = recv.ref[1]
@@ -1780,7 +1893,6 @@ class FnTx:
                 return Val(())
             self.fail(call, f'{cls.name}.{m} not found')
         if recv.ref is not None and recv.ref[0] in ('ext', 'mod', 'builtin'):
-            self.mark_escaping(args)
             return self.external(f'{recv.ref[1] if recv.ref[0] != "mod" else recv.ref[1].name}.{m}', args, call)
         results = []
         handled = False
@@ -1805,20 +1917,29 @@ class FnTx:
         if m in self.an.stored_attrs:
             # an attribute holding a callable (`self.model()`, a method replaced on the instance)
             self.mark_escaping(args)
-            av = self.an.attr_var(m)
-            results.append(self.unresolved_call(args, call, extra=[self.of_var(av)]))
+            # the stored callable is one of the escaped `copulas` callables or a class (linked later),
+            # unless an external callable was ever stored under that name
+            refs = self.an.attr_refs.get(m, [])
+            self.an.attr_uses.add(m)
+            if refs and m not in self.an.attr_opaque:
+                results.append(self.call_refs(refs, args, call))
+            elif not cands or m in self.an.attr_opaque:
+                results.append(self.unresolved_call(args, call, user_callable=m in self.an.ext_callable_attrs
+                                                    or m in self.an.attr_opaque))
             handled = True
         if recv.inst is None or not cands:
             argv = self.all_args(args)
             if m in MUTATING_METHODS:
                 handled = True
+                if self.root_attr(f.value) is not None:
+                    for v in argv:
+                        self.record_attr(self.root_attr(f.value), v)
                 self.store_into(recv, union(argv))
                 self.mark_escaping(args)
                 if m in POP_LIKE:
                     results.append(recv.element())
             elif m in ALIAS_METHODS:
                 handled = True
-                self.mark_escaping(args)
                 if m in ELEMENT_METHODS:
                     results.append(union([recv.element()] + (pos[1:] if m == 'get' else [])))
                 else:
@@ -1827,7 +1948,6 @@ class FnTx:
                 handled = True
                 if m in ('apply',):
                     self.callbacks(args, call)
-                self.mark_escaping(args)
                 if kw.get('copy') is not None and self.is_false(call, 'copy'):
                     results.append(Val(recv.srcs, recv.csrcs))
                 elif m in SHALLOW_METHODS:
@@ -1879,9 +1999,18 @@ def entry_specs(an):
 
 def analyse(repo):
     an = Analysis(repo)
-    an.unknown_external = set()
-    entries = entry_specs(an)
-    an.run([spec for _, spec, _ in entries])
+    for _round in range(8):
+        # calls through attributes use what is known to be stored under the attribute name; that knowledge
+        # grows while translating, so translate until it is stable
+        an.reset()
+        before = an.attr_state()
+        entries = entry_specs(an)
+        an.run([spec for _, spec, _ in entries])
+        if an.attr_state() == before:
+            break
+    else:
+        raise U('copulas', 'attribute-callable knowledge did not stabilise')
+    an.rounds = _round + 1
     inline_small(an, {an.fns[k].idx for k, _, _ in entries})
     an.entries = []
     for key, spec, tags in entries:
@@ -1892,60 +2021,107 @@ def analyse(repo):
     return an
 
 
-def lean_stmt(st):
+def text_stmt(st):
     if st[0] == 'call':
-        return f'.call {st[1]} [{", ".join(str(a) for a in st[2])}] [{", ".join(str(a) for a in st[3])}]'
-    return f'.{st[0]} ' + ' '.join(str(a) for a in st[1:])
+        return f'c {st[1]} ' + ' '.join(str(a) for a in st[2]) + ' > ' + ' '.join(str(a) for a in st[3])
+    return {'alias': 'a', 'fresh': 'f', 'write': 'w', 'param': 'p'}[st[0]] + ' ' + ' '.join(str(a) for a in st[1:])
+
+
+def fn_body(f):
+    """statements of a function, de-duplicated (the program is a SET)"""
+    return list(dict.fromkeys((st[0],) + tuple(tuple(x) if isinstance(x, list) else x for x in st[1:])
+                              for st in f.body))
 
 
 HEADER = '''import CopVerif.Model.Effects
 /-! GENERATED by tools/regen.py (tools/gen_effects.py) from /repo/copulas/**/*.py on every run - do not edit.
-    Write-effect IR of every public entry point of `copulas` and of every function reachable from one.
-    `module` = all translated functions, `entries` = (name, function index, tracked parameters (name, variable, content variable)),
-    `fnNames` / `varNames` = provenance for diagnostics. -/
+    Write-effect IR of every public entry point of `copulas` and of every function reachable from one,
+    in the text form decoded by `Model.Effects.decodeModule` (one function per line:
+    `params;rets;statements`).  `entries` = (name, function index, tracked parameters (name, variable,
+    content variable)).  Names of functions / variables for diagnostics: `gen_effects.analyse(repo)`. -/
 namespace CopVerif.Gen.Effects
 open CopVerif.Model.Effects
 '''
-
-
-def chunks(xs, n):
-    return [xs[i:i + n] for i in range(0, len(xs), n)] or [[]]
 
 
 def lean_str(s):
     return '"' + s.replace('\\', '\\\\').replace('"', '\\"') + '"'
 
 
+def module_text(an):
+    lines = []
+    for f in an.order:
+        params = ' '.join(f'{p[1]} {an.cvar(p[1])}' for p in f.params)
+        lines.append(f'{params};{f.ret} {an.cvar(f.ret)};' + ','.join(text_stmt(s) for s in fn_body(f)))
+    return lines
+
+
+def python_flatten(an, e):
+    """independent re-implementation of `Model.Effects.flatten` (used by the harness to validate the text
+    decoding and the linking done in Lean): set of statement tokens as printed by `effects flat`"""
+    fns = an.order
+    seen, work = [], [e]
+    while work:
+        f = work.pop()
+        if f in seen:
+            continue
+        seen.append(f)
+        work.extend(st[1] for st in fns[f].body if st[0] == 'call')
+    out = set()
+    for p in fns[e].params:
+        out.add(f'p:{p[1]}')
+        out.add(f'p:{an.cvar(p[1])}')
+    for f in seen:
+        for st in fns[f].body:
+            if st[0] == 'call':
+                c = fns[st[1]]
+                for r, q in zip(st[3], [c.ret, an.cvar(c.ret)]):
+                    out.add(f'a:{r}:{q}')
+                cps = [x for p in c.params for x in (p[1], an.cvar(p[1]))]
+                for pv, a in zip(cps, st[2]):
+                    out.add(f'a:{pv}:{a}')
+            else:
+                out.add({'alias': 'a', 'fresh': 'f', 'write': 'w'}[st[0]] + ':' + ':'.join(str(x) for x in st[1:]))
+    return out
+
+
+def witness(an, e, roots):
+    """a chain `root -> … -> written variable` through the alias edges of entry `e` (diagnostics only)"""
+    edges, writes = {}, set()
+    for t in python_flatten(an, e):
+        ws = t.split(':')
+        if ws[0] == 'a':
+            edges.setdefault(int(ws[2]), []).append(int(ws[1]))
+        elif ws[0] == 'w':
+            writes.add(int(ws[1]))
+    par = {r: None for r in roots}
+    work = list(roots)
+    while work:
+        x = work.pop(0)
+        if x in writes:
+            path = []
+            while x is not None:
+                path.append(an.varnames[x])
+                x = par[x]
+            return list(reversed(path))
+        for y in edges.get(x, []):
+            if y not in par:
+                par[y] = x
+                work.append(y)
+    return None
+
+
 def generate(repo):
     an = analyse(repo)
     out = [HEADER]
-    for f in an.order:
-        # de-duplicate statements (the program is a SET)
-        body = list(dict.fromkeys((st[0],) + tuple(tuple(x) if isinstance(x, list) else x for x in st[1:])
-                                  for st in f.body))
-        parts = []
-        for k, ch in enumerate(chunks(body, 120)):
-            out.append(f'def fn{f.idx}_b{k} : List Stmt := [' + ', '.join(lean_stmt(s) for s in ch) + ']')
-            parts.append(f'fn{f.idx}_b{k}')
-        out.append(f'/-- {f.spec.key} ({f.spec.mod.rel}:{f.spec.node.lineno}) -/')
-        out.append(f'def fn{f.idx} : Fn := ⟨[{", ".join(f"{p[1]}, {an.cvar(p[1])}" for p in f.params)}], [{f.ret}, {an.cvar(f.ret)}], '
-                   + ' ++ '.join(parts) + '⟩')
-    for k, ch in enumerate(chunks(an.order, 60)):
-        out.append(f'def module_c{k} : Array Fn := #[' + ', '.join(f'fn{f.idx}' for f in ch) + ']')
-    out.append('def module : Module := ' + ' ++ '.join(f'module_c{k}' for k in range(len(chunks(an.order, 60)))))
-    for k, ch in enumerate(chunks(an.order, 60)):
-        out.append(f'def fnNames_c{k} : Array String := #[' + ', '.join(lean_str(f.spec.key) for f in ch) + ']')
-    out.append('def fnNames : Array String := ' +
-               ' ++ '.join(f'fnNames_c{k}' for k in range(len(chunks(an.order, 60)))))
+    lines = module_text(an)
+    out.append('def code : String := "' + '\\n'.join(lines) + '"')
+    out.append('def module? : Option Module := decodeModule code')
     ents = []
     for e in an.entries:
         ps = ', '.join(f'({lean_str(n)}, {v}, {c})' for n, v, c in e['params'])
         ents.append(f'({lean_str(e["name"])}, {e["fn"]}, [{ps}])')
     out.append('def entries : List (String × Nat × List (String × Var × Var)) := [\n  ' + ',\n  '.join(ents) + ']')
-    for k, ch in enumerate(chunks(an.varnames, 400)):
-        out.append(f'def varNames_c{k} : Array String := #[' + ', '.join(lean_str(v) for v in ch) + ']')
-    out.append('def varNames : Array String := ' +
-               ' ++ '.join(f'varNames_c{k}' for k in range(len(chunks(an.varnames, 400)))))
     out.append('end CopVerif.Gen.Effects\n')
     report = []
     seen = set()
